@@ -123,6 +123,10 @@ def run_histories(pid, seed, tier, lean, weights, oracle_step, nontrivial, quick
             if kind == 'oracle':
                 small = shrink(prefix, lambda h: failing_oracle(h, oracle_step))
                 probs = failing_oracle(small, oracle_step)
+                if not probs:
+                    # the failure does not repeat on a fresh replay of the shrunk history (state kept between runs,
+                    # caches on shared objects ...): report the history as it was observed
+                    small, probs = prefix, info
                 res.violations.append(Violation(
                     what=f'{probs[0]} after {small[-1]["k"]} (history of {len(small)} operations)',
                     fingerprint=f'{pid}:{classify(probs[0])}',
